@@ -235,6 +235,74 @@ func c03Body(d c03Desc, tier string) func() {
 					break
 				}
 			}
+		case "pipeline":
+			// pipelined use of one connection: every order of up to 4 Sends and their receives in which a
+			// receive never overtakes its Send; the i-th receive must yield the reply to the i-th call
+			var words []string
+			var rec func(w string, sends, recvs int)
+			rec = func(w string, sends, recvs int) {
+				if sends == recvs && sends > 0 {
+					words = append(words, w)
+				}
+				if sends < 4 {
+					rec(w+"S", sends+1, recvs)
+				}
+				if recvs < sends {
+					rec(w+"R", sends, recvs+1)
+				}
+			}
+			rec("", 0, 0)
+			if len(d.Sample) == 1 {
+				// one word per scenario (explored under schedule deviations): both ends see merged segments
+				words = []string{d.Sample[0]}
+			}
+			passes := append(append([]string(nil), words...), words...)
+			if len(d.Sample) == 1 {
+				passes = []string{"", d.Sample[0]} // merged segments only
+			}
+			for wi, wd := range passes {
+				if wd == "" {
+					continue
+				}
+				c, _ = l.Dial("")
+				// second pass: replies that arrive while earlier ones are unread are merged by the network, so
+				// that one read of the client pulls in several replies
+				c.Coalesce = wi >= len(words)
+				c.Peer().Coalesce = c.Coalesce // and the service reads pipelined calls in one segment, answering them back to back
+				conn = varlink.VerifNewConnection(c)
+				var recvs []func(context.Context, interface{}) (uint64, error)
+				sent, got := 0, 0
+				for _, op := range wd {
+					if op == 'S' {
+						doc := fmt.Sprintf(`{"i":%d,"pad":"%s","n":9007199254740993}`, sent, strings.Repeat("p", sent*1500))
+						r, err := conn.Send(live, "t.r.Echo", json.RawMessage(doc), 0)
+						if err != nil {
+							fail("pipeline %s: Send %d failed: %v", wd, sent, err)
+							break
+						}
+						recvs = append(recvs, r)
+						sent++
+					} else {
+						var out struct {
+							I *int `json:"i"`
+						}
+						if _, err := recvs[got](live, &out); err != nil || out.I == nil || *out.I != got {
+							v := "<none>"
+							if out.I != nil {
+								v = fmt.Sprint(*out.I)
+							}
+							fail("pipeline %s: receive %d yielded the reply to call %s (err %v)", wd, got, v, err)
+							break
+						}
+						got++
+					}
+				}
+				st.cases++
+				conn.Close()
+				if st.fail != "" {
+					break
+				}
+			}
 		case "typed":
 			one := int64(math.MinInt64)
 			vals := []c03Typed{
@@ -316,9 +384,19 @@ func scenariosC03(tier string) []Scen {
 		d := c03Desc{Kind: "docs", From: from, To: to, Sample: docs[from:min(from+2, to)]}
 		out = append(out, Scen{Desc: d, Bound: 0, Horizon: 100000000, Body: c03Body(d, tier), Check: c03Check, Obs: c03Obs, Cases: c03Cases})
 	}
-	for _, k := range []string{"more", "typed"} {
+	for _, k := range []string{"more", "typed", "pipeline"} {
 		d := c03Desc{Kind: k}
 		out = append(out, Scen{Desc: d, Bound: 0, Horizon: 100000000, Body: c03Body(d, tier), Check: c03Check, Obs: c03Obs, Cases: c03Cases})
+	}
+	// pipelining under schedule deviations: whether one read of the client pulls in several replies depends on
+	// the order in which the service's and the client's reads run
+	pb := 2
+	if tier != "quick" {
+		pb = 3
+	}
+	for _, wd := range []string{"SSRR", "SSRSRR", "SSSRRR", "SRSSRSRR"} {
+		d := c03Desc{Kind: "pipeline", Sample: []string{wd}}
+		out = append(out, Scen{Desc: d, Bound: pb, Body: c03Body(d, tier), Check: c03Check, Obs: c03Obs, Cases: c03Cases})
 	}
 	return out
 }
